@@ -1,6 +1,18 @@
-/* stubs/tramp_module.c - module_get by contract in the per-phase C20 harnesses: every module named
- * in a depends/rdepends vector exists in the table, so module_get is a pure lookup there (its
- * create-if-absent path is exercised by the whole-run harness of the thorough tier) */
+/* stubs/tramp_module.c - trampolines for the C20 harnesses (one -DTRAMP_X per removed body).
+ * module_get by contract in the per-phase harnesses: every module named in a depends/rdepends
+ * vector exists in the table, so module_get is a pure lookup there (its create-if-absent path is
+ * exercised by the whole-run harness).  xmalloc / xrealloc: typed allocation models stated in the
+ * harness (harness/h_module.c, "allocation"). */
 struct module;
+#ifdef TRAMP_module_get
 struct module *model_module_get(const char *name);
 struct module *module_get(const char *name) { return model_module_get(name); }
+#endif
+#ifdef TRAMP_xmalloc
+void *model_xmalloc(unsigned int size);
+void *xmalloc(unsigned int size) { return model_xmalloc(size); }
+#endif
+#ifdef TRAMP_xrealloc
+void *model_xrealloc(void *ptr, unsigned int size);
+void *xrealloc(void *ptr, unsigned int size) { return model_xrealloc(ptr, size); }
+#endif
